@@ -3,8 +3,13 @@
 
    CSeq : one goroutine; every call's observed result must equal the model's, call by call.
    CLin : several goroutines; the recorded history (call/return stamps from one atomic counter)
-          must be linearizable with respect to the model as an atomic object (lib/Lin.v). *)
-From Hy Require Import lib.Harness lib.Lin model.C15_Stats.
+          must be linearizable with respect to the model as an atomic object (lib/Lin.v).
+   CWorld : end-to-end run (real hysteria server + real clients over loopback, the stats server
+          as its TrafficLogger, every LogTraffic / LogOnlineState call recorded at the logger
+          boundary): the server events in the order they were observed, each with the recorded
+          answer, and "is this connection still usable" probes; the world model of
+          model/C15_Sites.v must give the same answers, event by event. *)
+From Hy Require Import lib.Harness lib.Lin model.C15_Stats model.C15_Sites.
 From Coq Require Import ZArith String.
 Local Open Scope N_scope.
 
@@ -41,9 +46,32 @@ Definition cres_eqb (a b : cres) : bool :=
 Definition c15_spec (secret : string) : spec :=
   mkSpec state call cres init_state (call_step secret) cres_eqb.
 
+(* one observation of an end-to-end run *)
+Inductive wobs :=
+| WE (e : wevent) (r : wresp)      (* a server event and what was observed as its answer *)
+| WAlive (slot : nat) (b : bool).  (* did a proxy attempt on that connection succeed? *)
+
+Definition wresp_eqb (a b : wresp) : bool :=
+  match a, b with
+  | WNone, WNone | WUnit, WUnit => true
+  | WBool x, WBool y => Bool.eqb x y
+  | WHttp s x, WHttp t y => (s =? t) && hbody_eqb x y
+  | _, _ => false
+  end.
+
+Fixpoint world_check (secret : string) (w : world) (l : list wobs) : bool :=
+  match l with
+  | [] => true
+  | WE e obs :: t =>
+      let (w', r) := wstep secret w e in
+      wresp_eqb r obs && world_check secret w' t
+  | WAlive slot b :: t => Bool.eqb (is_open slot w) b && world_check secret w t
+  end.
+
 Inductive case :=
 | CSeq (secret : string) (l : list (call * cres))
-| CLin (secret : string) (h : list (event call cres)).
+| CLin (secret : string) (h : list (event call cres))
+| CWorld (secret : string) (l : list wobs).
 
 Fixpoint seq_check (secret : string) (s : state) (l : list (call * cres)) : bool :=
   match l with
@@ -57,6 +85,7 @@ Definition check (c : case) : bool :=
   match c with
   | CSeq secret l => seq_check secret init_state l
   | CLin secret h => lin_check (c15_spec secret) h
+  | CWorld secret l => world_check secret init_world l
   end.
 
 Definition mismatches (l : list case) : list nat := mism_from check 0 l.
@@ -65,3 +94,5 @@ Definition mismatches (l : list case) : list nat := mism_from check 0 l.
 Definition ev (c : call) (r : cres) (a b : N) : event call cres := mkEv c r a b.
 Definition rq (auth method path clear : string) (body : option (list id)) : call :=
   CHttp (mkReq auth method path clear body).
+Definition wrq (auth method path clear : string) (body : option (list id)) : wevent :=
+  EHttp (mkReq auth method path clear body).
